@@ -40,9 +40,12 @@ OK(e) ==
 
 \* "loadpanic": the loader panicked before there was a module to print (code 4: a panic, but not one of disassemble)
 Code(e) == IF e.st = "loadpanic" THEN 4 ELSE IF e.st = "panic" THEN 5 ELSE IF OK(e) THEN 0 ELSE 1
+\* "generator tool name": a registered tool (pinned list) and a tool id outside the list never share a header comment
+\* (what an unregistered id shows is free - "Unknown", or a name registered later - but it is not another tool's header)
+PairCode(e) == IF e.g1 < 16 /\ e.g2 >= 16 /\ e.tok1 = e.tok2 THEN 1 ELSE 0
 Init == l = 1 /\ bad = <<>>
 Next == /\ l <= Len(Rec)
-        /\ LET c == IF Rec[l].ev = "disasm" THEN Code(Rec[l]) ELSE 0 IN bad' = IF c = 0 THEN bad ELSE (IF Len(bad) >= 5000 THEN bad ELSE Append(bad, <<l, c>>))
+        /\ LET c == IF Rec[l].ev = "disasm" THEN Code(Rec[l]) ELSE IF Rec[l].ev = "hdrpair" THEN PairCode(Rec[l]) ELSE 0 IN bad' = IF c = 0 THEN bad ELSE (IF Len(bad) >= 5000 THEN bad ELSE Append(bad, <<l, c>>))
         /\ l' = l + 1
 Spec == Init /\ [][Next]_vars
 Done == l = Len(Rec) + 1
